@@ -47,7 +47,12 @@ def main():
     meta["confirmed"]["ok"] = ok
     d = os.path.join(VERIF, "seeded", sid)
     os.makedirs(d, exist_ok=True)
-    shutil.copy(patch, os.path.join(d, "patch.diff"))
+    # keep only the change to the library sources (build output may be tracked in the checkout)
+    rc, out = sh("git diff -- include", wt)
+    if rc == 0 and out.strip():
+        open(os.path.join(d, "patch.diff"), "w").write(out)
+    else:
+        shutil.copy(patch, os.path.join(d, "patch.diff"))
     shutil.copy(demo, os.path.join(d, "demo.cpp"))
     if os.path.exists(os.path.join(wt, "NOTES.md")):
         shutil.copy(os.path.join(wt, "NOTES.md"), os.path.join(d, "NOTES.md"))
